@@ -3,7 +3,8 @@
 (*   ref   (v, files: path -> sha)              what a run of version v into an EMPTY location wrote *)
 (*   reset                                      a new history starts on an empty location             *)
 (*   run   (v, files: path -> [sha, mtime])     snapshot of the location after running version v      *)
-(* Layer P (Writer!Idempotent, Writer!Fresh) judges every run event.                                  *)
+(*         failed: TRUE when the run ended with an error (a version whose sources typeshare rejects)  *)
+(* Layer P (Writer!Idempotent, Writer!Fresh, Writer!FailedRunTouchesNothing) judges every run event.  *)
 EXTENDS TLC, Json, IOUtils, Sequences, Naturals
 Rec == ndJsonDeserialize(IOEnv.TRACE)
 VARIABLES i, bad, prev, prevv, refs
@@ -12,7 +13,10 @@ NoFiles == [p \in {} |-> 0]
 Idem(e) == prevv = e.v => e.files = prev
 FreshOk(e) == e.v \in DOMAIN refs =>
     \A p \in DOMAIN refs[e.v] : p \in DOMAIN e.files /\ e.files[p].sha = refs[e.v][p]
-Ok(e) == e.ev # "run" \/ (Idem(e) /\ FreshOk(e))
+\* a failing run creates and modifies nothing; the next successful run is judged against the last SUCCESSFUL version for
+\* idempotence (the location still holds that version's output) and must be fresh as always
+Untouched(e) == e.failed => e.files = prev
+Ok(e) == e.ev # "run" \/ (IF e.failed THEN Untouched(e) ELSE (Idem(e) /\ FreshOk(e)))
 
 Init == i = 1 /\ bad = <<>> /\ prev = NoFiles /\ prevv = "none" /\ refs = [v \in {} |-> 0]
 Next == /\ i <= Len(Rec)
@@ -20,7 +24,7 @@ Next == /\ i <= Len(Rec)
              /\ bad' = IF Ok(e) THEN bad ELSE Append(bad, i)
              /\ refs' = IF e.ev = "ref" THEN [v \in (DOMAIN refs) \cup {e.v} |-> IF v = e.v THEN e.files ELSE refs[v]] ELSE refs
              /\ prev' = IF e.ev = "run" THEN e.files ELSE IF e.ev = "reset" THEN NoFiles ELSE prev
-             /\ prevv' = IF e.ev = "run" THEN e.v ELSE IF e.ev = "reset" THEN "none" ELSE prevv
+             /\ prevv' = IF e.ev = "run" THEN (IF e.failed THEN prevv ELSE e.v) ELSE IF e.ev = "reset" THEN "none" ELSE prevv
         /\ i' = i + 1
 Report == (i = Len(Rec) + 1) => PrintT(<<"INFO", "bad", ToJson(bad)>>)
 Accepted == PrintT(<<"INFO", "matched", TLCGet("stats").diameter - 1>>)
